@@ -221,11 +221,22 @@ hs_parens = (Suppress(Literal("(")) + hs_filter + Suppress(Literal(")"))).setPar
     lambda toks: toks[0]
 )
 hs_term = hs_parens | hs_missing | hs_cmp | hs_has
+def _fold_left(op):
+    # "a op b op c" is "(a op b) op c", for any number of operands
+    def _action(toks):
+        node = toks[0]
+        for right in toks[2::2]:
+            node = FilterBinary(op, node, right)
+        return node
+
+    return _action
+
+
 hs_condAnd = (hs_term + ZeroOrMore(Literal("and") + hs_term)).setParseAction(
-    lambda toks: FilterBinary("and", toks[0], toks[2]) if len(toks) > 1 else toks[0]
+    _fold_left("and")
 )
 hs_condOr = (hs_condAnd + ZeroOrMore(Literal("or") + hs_condAnd)).setParseAction(
-    lambda toks: FilterBinary("or", toks[0], toks[2]) if len(toks) > 1 else toks[0]
+    _fold_left("or")
 )
 hs_filter <<= hs_condOr
 
